@@ -106,12 +106,43 @@ pub fn decode(ctx: &Ctx, tape: &[u32]) -> FaultCase {
         db.data[0] = rows.into_iter().map(|r| vec![r]).collect();
         db.tick_after_load = false;
     }
+    // rarely the table of a DELETE is large (5 inserts of 1100 rows, values from a counter): the
+    // statement then fails after thousands of rows have gone through its operators
+    let bulk = kind == StmtKind::Delete && t.chance(1, 15);
+    if bulk {
+        let td = db.schema[0].clone();
+        let mut n = 0i64;
+        db.data[0] = (0..5)
+            .map(|_| {
+                (0..1100)
+                    .map(|_| {
+                        n += 1;
+                        td.cols
+                            .iter()
+                            .enumerate()
+                            .map(|(ci, c)| {
+                                let k = n + ci as i64;
+                                match c.ty {
+                                    _ if c.pk => Val::Int(n),
+                                    _ if c.nullable && k % 7 == 0 => Val::Null,
+                                    Ty::Int => Val::Int(INT_DOM[(k % 5) as usize]),
+                                    Ty::Bool => Val::Bool(k % 2 == 0),
+                                    Ty::Str => Val::Str(STR_DOM[(k % 5) as usize].to_string()),
+                                }
+                            })
+                            .collect()
+                    })
+                    .collect()
+            })
+            .collect();
+        db.tick_after_load = false;
+    }
     let mut case = FaultCase { db, kind, optimize, query: None, sql: String::new(), sql_nolimit: String::new(), sel_unlimited: None, target: None, steered: vec![] };
     if kind == StmtKind::Delete {
-        let td = case.db.schema[t.pick(case.db.schema.len())].clone();
+        let td = if bulk { case.db.schema[0].clone() } else { case.db.schema[t.pick(case.db.schema.len())].clone() };
         case.target = Some(td.name.clone());
         case.sql = format!("delete from {}", td.name);
-        if !t.chance(1, 8) {
+        if !bulk && !t.chance(1, 8) {
             let scope: Vec<ScopeCol> = td.cols.iter().map(|c| ScopeCol { alias: td.name.clone(), name: c.name.clone(), ty: c.ty }).collect();
             let mut g = Gen { t: &mut t, cfg: cfg.clone(), schema: &case.db.schema, alias_no: 0 };
             let mut p = g.expr(&scope, &[], Ty::Bool, 0, cfg.subqueries);
@@ -149,7 +180,7 @@ pub fn decode(ctx: &Ctx, tape: &[u32]) -> FaultCase {
         _ => {
             // the target table takes the types of the select list
             let cols = (query.select.iter().enumerate()).map(|(i, (_, ty))| ColDef { name: format!("x{i}"), ty: *ty, nullable: true, pk: false }).collect();
-            let td = TableDef { name: "tgt".into(), cols };
+            let td = TableDef { name: "tgt".into(), cols, table_pk: vec![] };
             let n = t.pick(4);
             let rows: Vec<Vec<Val>> = (0..n).map(|_| td.cols.iter().map(|c| gen_val(&mut t, c.ty, true)).collect()).collect();
             case.db.data.push(if rows.is_empty() { vec![] } else { vec![rows] });
